@@ -90,19 +90,19 @@ def bounded_httpx_lines(tier, seed):
     """check of the ASSUMED dependency contract: aiter_lines() is chunk independent (installed httpx)"""
     rnd = random.Random(seed)
     alphabet = ["a", "é", ":", " ", "\n", "\r"]
-    L = 4 if tier == "quick" else 6
+    L = 4 if tier == "quick" else 5
     n = 0
     failures = []
     for k in range(1, L + 1):
         for tup in itertools.product(alphabet, repeat=k):
             data = "".join(tup).encode("utf-8")
-            if len(data) > (9 if tier == "quick" else 11):
+            if len(data) > (9 if tier == "quick" else 10):
                 continue
 
             async def lines(chunks):
                 return [l async for l in _mk_response(chunks).aiter_lines()]
             ref = asyncio.run(lines([data]))
-            for ch in _chunkings(data, 32 if tier == "quick" else 512, rnd):
+            for ch in _chunkings(data, 32 if tier == "quick" else 128, rnd):
                 n += 1
                 got = asyncio.run(lines(ch))
                 if got != ref:
@@ -111,7 +111,7 @@ def bounded_httpx_lines(tier, seed):
             if failures:
                 break
     return {"function": "httpx.Response.aiter_lines (assumed dependency contract, not the repo)", "backend": "exhaustive enumeration",
-            "bound": f"all strings of <= {L} symbols over {alphabet!r} (<= {9 if tier == 'quick' else 11} bytes) x all chunkings (capped per stream)",
+            "bound": f"all strings of <= {L} symbols over {alphabet!r} (<= {9 if tier == 'quick' else 10} bytes) x all chunkings (capped per stream)",
             "evaluations": n, "distinct_nontrivial": n, "exhaustive": False, "failures": failures}
 
 
